@@ -212,7 +212,7 @@ mut("C19-info-bar-time-not-reset", TOK, "                cur_time += cur_bar_cap
 mut("C11-quantise-true-division", ABS, "positions_left = [(message_original_time // step_size) * step_size for step_size in step_sizes]", "positions_left = [int(message_original_time / step_size) * step_size * 1.0 for step_size in step_sizes]", ["C11"])
 mut("C11-internal-cap-not-int", REL, "Message(message_type=MessageType.INTERNAL, channel=default_channel, time=int(current_point_in_time)))", "Message(message_type=MessageType.INTERNAL, channel=default_channel, time=current_point_in_time / 1))", ["C11"])
 mut("C11-length-bar-not-int", SEQ, "length_bar = int(PPQN * (current_ts_numerator / (current_ts_denominator / 4)))", "length_bar = PPQN * (current_ts_numerator / (current_ts_denominator / 4))", ["C11"])
-mut("C11-scale-float", REL, "                    msg.time = msg.time * factor\n        # Handle", "                    msg.time = msg.time * float(factor)\n        # Handle", ["C11", "C18"])
+mut("C11-scale-float", REL, "                    msg.time = msg.time * factor\n        # Handle", "                    msg.time = msg.time * float(factor)\n        # Handle", ["C11"])  # integral floats are C11's business; C18 compares numerically
 mut("C11-cutoff-float", ABS, "message_pairing[1].time = message_pairing[0].time + reduced_length", "message_pairing[1].time = message_pairing[0].time + reduced_length * 1.0", ["C11"])
 mut("C11-detok-capacity-float", TOK, "        cur_bar_capacity_total = int(self.ppqn * 4 * cur_time_signature_numerator / cur_time_signature_denominator)\n        cur_bar_capacity_remaining = cur_bar_capacity_total\n        prv_track = 0", "        cur_bar_capacity_total = self.ppqn * 4 * cur_time_signature_numerator / cur_time_signature_denominator\n        cur_bar_capacity_remaining = cur_bar_capacity_total\n        prv_track = 0", ["C11"])
 mut("C11-pad-float", REL, "Message(message_type=MessageType.WAIT, channel=default_channel, time=padding_length - current_length))", "Message(message_type=MessageType.WAIT, channel=default_channel, time=(padding_length - current_length) / 1))", ["C11"])
